@@ -105,11 +105,17 @@ func topicInit(t *Topic, join *ClientComMessage, h *Hub) {
 	// prevent newly initialized topics to go live while shutdown in progress
 	if globals.shuttingDown {
 		h.topicDel(join.RcptTo)
+		if join.Sub != nil {
+			join.sess.queueOut(ErrLockedReply(join, timestamp))
+		}
 		return
 	}
 
 	if t.isDeleted() {
 		// Someone deleted the topic while we were trying to create it.
+		if join.Sub != nil {
+			join.sess.queueOut(ErrLockedReply(join, timestamp))
+		}
 		return
 	}
 
